@@ -23,14 +23,16 @@ SPEC = {
     },
     "floors": {
         "quick": {"histories": 12, "roots_checked": 4000, "witnesses_verified": 100, "cross_pool_alignment_checks": 600,
-                  "retained_boundaries_checked": 200, "rewinds": 4, "distinct_nontrivial": 10},
+                  "retained_boundaries_checked": 200, "rewinds": 4, "distinct_nontrivial": 10,
+                  "histories_starting_at_shard_boundary": 2, "histories_with_activation_inside_chain": 2, "histories_with_late_starting_pool": 2, "subtree_roots_put": 2},
         "thorough": {"histories": 500, "roots_checked": 200000, "witnesses_verified": 8000, "cross_pool_alignment_checks": 50000,
-                     "retained_boundaries_checked": 8000, "retained_boundaries_on_blocks_without_commitments": 2000, "rewinds": 120, "distinct_nontrivial": 150},
+                     "retained_boundaries_checked": 8000, "retained_boundaries_on_blocks_without_commitments": 2000, "rewinds": 120, "distinct_nontrivial": 150,
+                     "histories_starting_at_shard_boundary": 80, "histories_with_activation_inside_chain": 80, "histories_with_late_starting_pool": 80, "subtree_roots_put": 100, "subtree_chunks_beyond_first_in_batch": 50, "deep_rewinds_attempted": 5},
     },
     "manifest": {
         "technique": "history + reference frontier: roots of retained checkpoints and wallet-produced witnesses compared with an independently rolled frontier after every operation of generated scan/rewind histories; structural invariant hooks on checkpoint id sets",
         "text": "Tens of thousands of checkpoint roots and hundreds of witnesses per run, over out-of-order/duplicated scans, rewinds and anchor-retention grids, each compared with the true chain tree; cross-pool checkpoint alignment and retained-boundary presence checked after every operation. Held on everything executed except the listed known finding.",
-        "note": "Sampled histories. Chains stay far below 2^16 leaves per pool, so shard-boundary / subtree-root insertion paths are exercised only in the thorough tier's shard-boundary starts (when implemented). Known finding F1 (dependency shardtree 0.7.0 keeps stale annotations on truncation) is recognised by its trigger predicate and reported as KNOWN-FINDING.",
+        "note": "Sampled histories. A quarter of the histories start just below a 2^16 subtree boundary (random prior frontier + prior subtree roots) so that shards complete and true subtree roots are inserted; a quarter activate NU6.3 inside the scanned chain; some let a pool receive its first commitment late and rewind below it; deep rewinds (100-300 blocks) are attempted now and then. Known finding F1 (dependency shardtree 0.7.0 keeps stale annotations on truncation) is recognised by its trigger predicate and reported as KNOWN-FINDING.",
     },
 }
 
